@@ -64,6 +64,13 @@ def builders(model):
             lambda I, w=w: inst(I, 'KullbackLeibler', X(w), prior=point(
                 X(w), [S('e4'), S('e5'), 3 * S('e4'), 2 * S('e5')])),
             pos)
+        # a prior with exact zeros (empty bins): the gradient is exactly 1
+        # there, the boundary of the conjugate's effective domain; entries
+        # on one scale so that their order is decided
+        B['KullbackLeibler[prior with zeros,%s]' % t] = (
+            lambda I, w=w: inst(I, 'KullbackLeibler', X(w), prior=point(
+                X(w), [Rat.const(0), S('e4'), 2 * S('e4'), Rat.const(0)])),
+            [S('e4'), 3 * S('e4') / 2, 3 * S('e4'), 2 * S('e4')])
         B['KullbackLeiblerCrossEntropy[%s]' % t] = (
             lambda I, w=w: inst(I, 'KullbackLeiblerCrossEntropy', X(w)), pos,
             'no-moreau')
@@ -91,6 +98,26 @@ def builders(model):
         B['expr:L2NormSquared.translated(y)[%s]' % t] = (
             lambda I, w=w: I.call(I.getattr_value(inst(
                 I, 'L2NormSquared', X(w)), 'translated'), [point(X(w), [
+                    S('y0'), S('y1'), S('y2'), S('y3')])], {}), gen)
+        # translations of functionals whose conjugate is itself a derived
+        # functional (the point is the leaf's designated point shifted by y)
+        ys = [sig, -sig, 2 * sig, sig / 2]
+        B['expr:Huber[gamma=sigma/2].translated(y)[%s]' % t] = (
+            lambda I, w=w, ys=ys: I.call(I.getattr_value(inst(
+                I, 'Huber', X(w), sig / 2), 'translated'), [point(
+                    X(w), ys)], {}),
+            [a + b for a, b in zip([3 * sig, -4 * sig, sig / 4, -sig / 3],
+                                   ys)])
+        B['expr:L1Norm.translated(y)[%s]' % t] = (
+            lambda I, w=w, ys=ys: I.call(I.getattr_value(inst(
+                I, 'L1Norm', X(w)), 'translated'), [point(X(w), ys)], {}),
+            [a + b for a, b in zip(l1pt, ys)])
+        B['expr:(L2NormSquared + <., l>).translated(y)[%s]' % t] = (
+            lambda I, w=w: I.call(I.getattr_value(inst(
+                I, 'FunctionalQuadraticPerturb', inst(
+                    I, 'L2NormSquared', X(w)), linear_term=point(X(w), [
+                        S('l0'), S('l1'), S('l2'), S('l3')])),
+                'translated'), [point(X(w), [
                     S('y0'), S('y1'), S('y2'), S('y3')])], {}), gen)
         B['expr:L2NormSquared + <., l>[%s]' % t] = (
             lambda I, w=w: inst(
@@ -236,7 +263,10 @@ def evaluate(model, build, entries, moreau=True):
             for fac, ft in ((Rat.const(1) / 2, 'g / 2'), (Rat.const(2),
                                                          '2 g')):
                 y = [PA.reduce_full(fac * gj) for gj in g]
-                fy_ = I.call(fc, [_mk(dom, y)], {})
+                try:
+                    fy_ = I.call(fc, [_mk(dom, y)], {})
+                except Undecided:
+                    continue       # which side of the domain: not decided
                 if not _finite(fy_):
                     continue               # + inf: nothing to show
                 gap = fx + PA.ired(to_rat(fy_))
